@@ -315,6 +315,144 @@ def stampede_guard(ctx, res):
     c.close()
 
 
+def stampede_recompute(ctx, res):
+    """memoize_stampede's early recomputation: a hit close to expiry starts a thread that recomputes func(*args, **kwargs)
+    and stores it under the same key.  The random draw and the thread are made deterministic (the draw is forced, the
+    thread runs synchronously); the function advances the virtual clock so that its measured duration is not zero."""
+    import types
+    import diskcache.recipes as rec
+    d = ctx.scratch('c16e')
+    c = diskcache.Cache(d)
+    clock = instr.Clock(1000.0)
+    draw = [0.999]
+
+    class SyncThread:
+        daemon = False
+
+        def __init__(self, target=None, args=(), kwargs=None, **_):
+            self._t, self._a, self._k = target, args, kwargs or {}
+
+        def start(self):
+            self._t(*self._a, **self._k)
+    saved = (rec.random, rec.threading)
+    rec.random = types.SimpleNamespace(random=lambda: draw[0])
+    rec.threading = types.SimpleNamespace(Thread=SyncThread)
+    try:
+        with instr.Installed(clock):
+            for typed, ign in CONFIGS[:3]:
+                ncalls = [0]
+
+                def g(*a, **k):
+                    ncalls[0] += 1
+                    clock.set(clock.time() + 1.0)
+                    return repr((vis(a, k, ign), 'x'))
+                f = rec.memoize_stampede(c, 100, name='g%d' % CONFIGS.index((typed, ign)), typed=typed, ignore=ign)(g)
+                for a, kw in calls(2, 1):
+                    want = repr((vis(a, kw, ign), 'x'))
+                    before = ncalls[0]
+                    try:
+                        draw[0] = 0.999
+                        r1 = f(*a, **kw)            # miss (or a hit on an entry of an equal-visible call)
+                        draw[0] = 1e-300
+                        r2 = f(*a, **kw)            # hit that triggers the early recomputation
+                        draw[0] = 0.999
+                        r3 = f(*a, **kw)            # hit on the recomputed entry
+                    except Exception as e:  # noqa
+                        res.violations.append(fw.Violation('stampede_recompute_raised', 'memoize_stampede raised %r' % e,
+                                                           {'check': 'stampede_recompute', 'call': repr((a, kw)), 'typed': typed, 'ignore': list(map(repr, ign))}))
+                        continue
+                    res.count(['stampede-recompute', typed, repr(ign), repr(a), repr(kw)], nontrivial=bool(a or kw))
+                    if (r1, r2, r3) != (want, want, want):
+                        res.violations.append(fw.Violation('stampede_recompute_wrong', 'memoize_stampede returned %r / %r / %r for a call whose function '
+                                                           'returns %r (miss, hit that recomputes early, hit afterwards)' % (r1, r2, r3, want),
+                                                           {'check': 'stampede_recompute', 'call': repr((a, kw)), 'typed': typed, 'ignore': list(map(repr, ign))}))
+                    if ncalls[0] - before > 2:
+                        res.violations.append(fw.Violation('repeat_recomputed', 'three calls ran the function %d times (at most the miss and one early '
+                                                           'recomputation are expected)' % (ncalls[0] - before),
+                                                           {'check': 'stampede_recompute', 'call': repr((a, kw))}))
+    finally:
+        rec.random, rec.threading = saved
+        c.close()
+
+
+def derived_names(ctx, res):
+    """Functions memoized WITHOUT name= get the base full_name(func) = module.qualname: two different functions with the
+    same short name (methods of two classes, helpers nested in two factories) must not share entries."""
+    import diskcache.recipes as rec
+
+    class Users:
+        @staticmethod
+        def load(x, scale=1):
+            return ('user', x, scale)
+
+    class Orders:
+        @staticmethod
+        def load(x, scale=1):
+            return ('order', x, scale)
+
+    def factory(tag):
+        def compute(x, scale=1):
+            return (tag, x, scale)
+        return compute
+    mk1, mk2 = factory, (lambda tag: (lambda x, scale=1: (tag, x, scale)))
+    pairs = [('static methods of two classes', Users.load, Orders.load)]
+
+    def outer_a():
+        def compute(x, scale=1):
+            return ('a', x, scale)
+        return compute
+
+    def outer_b():
+        def compute(x, scale=1):
+            return ('b', x, scale)
+        return compute
+    pairs.append(('helpers nested in two functions', outer_a(), outer_b()))
+    clock = instr.Clock(1000.0)
+    with instr.Installed(clock):
+        for kind in ('cache', 'fanout', 'index', 'stampede', 'django'):
+            d = ctx.scratch('c16n')
+            try:
+                fac, _, close = make_target(kind, d, clock)
+            except Exception:  # noqa
+                continue
+            # make_target's factories pass name='f'; build the nameless decorators directly
+            if kind == 'cache':
+                obj = diskcache.Cache(d + '-n')
+                deco = lambda: obj.memoize()  # noqa: E731
+            elif kind == 'fanout':
+                obj = diskcache.FanoutCache(d + '-n', shards=3)
+                deco = lambda: obj.memoize()  # noqa: E731
+            elif kind == 'index':
+                obj = diskcache.Index(d + '-n')
+                deco = lambda: obj.memoize()  # noqa: E731
+            elif kind == 'stampede':
+                obj = diskcache.Cache(d + '-n')
+                deco = lambda: rec.memoize_stampede(obj, 100)  # noqa: E731
+            else:
+                from diskcache.djangocache import DjangoCache
+                obj = DjangoCache(d + '-n', {'SHARDS': 2})
+                deco = lambda: obj.memoize()  # noqa: E731
+            try:
+                for label, f1, f2 in pairs:
+                    w1, w2 = deco()(f1), deco()(f2)
+                    for args, kw in (((1,), {}), ((2,), {'scale': 3})):
+                        r1 = w1(*args, **kw)
+                        r2 = w2(*args, **kw)
+                        res.count(['derived-name', kind, label, repr(args), repr(kw)], nontrivial=True)
+                        k1, k2 = w1.__cache_key__(*args, **kw), w2.__cache_key__(*args, **kw)
+                        if r1 != f1(*args, **kw) or r2 != f2(*args, **kw) or k1 == k2:
+                            res.violations.append(fw.Violation('derived_name_shared', '%s memoized without name= on %s: %s%r returned %r and %r (the functions '
+                                                               'return %r and %r); cache keys %r / %r' % (label, kind, f1.__qualname__, (args, kw), r1, r2,
+                                                                                                        f1(*args, **kw), f2(*args, **kw), k1, k2),
+                                                               {'check': 'derived_names', 'kind': kind, 'pair': label, 'args': repr(args), 'kwargs': repr(kw)}))
+            finally:
+                close()
+                try:
+                    (obj.cache if kind == 'index' else obj).close()
+                except Exception:  # noqa
+                    pass
+
+
 def witness_none_positional():
     """Finding C16-F1: f(1, None, 'a') and f(1, a=None) share a key."""
     import tempfile, shutil
@@ -350,6 +488,8 @@ def run(ctx):
         wrapper_runs(ctx, res, 150, 60)
     res.extra['exhaustive'] = True
     stampede_guard(ctx, res)
+    stampede_recompute(ctx, res)
+    derived_names(ctx, res)
     res.witnessed['none_positional'] = witness_none_positional()
     return res
 
@@ -359,6 +499,8 @@ def search(ctx, broken):
     enumerate_keys(ctx, res, 3, 2)
     wrapper_runs(ctx, res, 60, 40)
     stampede_guard(ctx, res)
+    stampede_recompute(ctx, res)
+    derived_names(ctx, res)
     return res
 
 
